@@ -75,6 +75,31 @@ def collect_walk(chk, results, paths):
     return n_events, distinct
 
 
+def dblpush_lines(chk, label="dblpush"):
+    """Gen_DblPush (double pushes landing beside a pinned / free enemy pawn, all lines, both colours) -> the real make_move
+    through `harness walk --script` -> Trace_Game on every successor (target, key, reply list ...).  Reports into chk."""
+    hb = vlib.build_harness("dev")
+    g = vlib.tlc("Gen_DblPush", timeout=1800, xmx="2g")
+    cases = [d for t, d in g.reports if t == "GEN"]
+    n_ep = sum(1 for c in cases if c["legal_ep"])
+    if g.error or len(cases) < 2000 or n_ep < 500 or n_ep == len(cases):
+        raise ToolError("Gen_DblPush: %s (%d cases, %d with a legal en-passant reply)" % (g.error, len(cases), n_ep))
+    sp = os.path.join(chk.outdir, label + "_lines.txt")
+    with open(sp, "w") as f:
+        for c in cases:
+            f.write("%s;%s\n" % (c["root"], c["move"]))
+    ev = os.path.join(chk.outdir, label + ".ndjson")
+    tables = os.path.join(chk.outdir, "tables.json")
+    vlib.harness(hb, ["walk", "--script", sp, "--out", ev, "--tables", tables])
+    sr = vlib.tlc("Trace_Game", env={"TRACE": ev, "TABLES": tables}, timeout=1800, xmx="3g")
+    if sr.error or not sr.stats("trace") or sr.viols("ROOT") or sr.viols("TRACE"):
+        raise ToolError("Trace_Game on the double-push lines: %s" % (sr.error or sr.viols("ROOT") or sr.stdout[-1000:]))
+    sr.path = ev
+    collect_walk(chk, [sr], [ev])
+    chk.cov["double_push_beside_pawn"] = {"pushes": len(cases), "with_legal_en_passant_reply": n_ep}
+    return sr
+
+
 def run_movegen_families(chk, families, nshards, density, shards=None):
     """Gen_Movegen -> harness replay-positions."""
     hb = vlib.build_harness("dev")
@@ -120,7 +145,7 @@ def mc_game(chk, depth, workers=8):
     chk.add("states", res.distinct)
     chk.add("transitions", res.states)
     chk.cov["mc_depth"] = depth
-    chk.cov["mc_roots"] = 17
+    chk.cov["mc_roots"] = len([x for x in r.stdout.splitlines() if x.strip()])
     return res
 
 
